@@ -90,7 +90,7 @@ ID_odd == <<97, 47, 98, 63, 99, 61, 100, 32, 101, 37>>   \* "a/b?c=d e%"
 ID_uni == <<195, 169, 228, 184, 150>>   \* "é世"
 H0 == [range |-> <<>>, crange |-> <<>>, ctype |-> <<>>, cl |-> 0]
 Sc0 == [ans |-> "ok", size |-> 3, mt |-> MT_test, rdig |-> D2, id |-> ID_plain, chunk |-> 7, wsize |-> 5,
-        werr |-> "ok", cerr |-> "ok", merr |-> "ok", items |-> <<>>, iterr |-> "ok"]
+        werr |-> "ok", cerr |-> "ok", merr |-> "ok", items |-> <<>>, iterr |-> "ok", rfail |-> 0, rcerr |-> "ok"]
 O0 == [noref |-> FALSE, nosingle |-> FALSE, maxpage |-> 0, omitdig |-> FALSE, omitlink |-> FALSE]
 O1 == [noref |-> TRUE, nosingle |-> TRUE, maxpage |-> 2, omitdig |-> TRUE, omitlink |-> TRUE]
 Opts == <<O0, O1>>
@@ -236,7 +236,7 @@ CTypes == <<<<>>, MT_manifest, MT_index, MT_json>>
 \* cl: Content-Length; -2 stands for "the length of the body"
 D0 == [kind |-> "Ping", m |-> "GET", ans |-> "ok", rng |-> 1, size |-> 3, cr |-> 1, cl |-> -2, bi |-> 1, ct |-> 1,
        werr |-> "ok", cerr |-> "ok", merr |-> "ok", il |-> 1, iterr |-> "ok", nv |-> 1, lastv |-> FALSE, oi |-> 1,
-       ref |-> "tag", sid |-> 1, wsize |-> 5, defect |-> "none"]
+       ref |-> "tag", sid |-> 1, wsize |-> 5, defect |-> "none", rf |-> 0, rcerr |-> "ok"]
 K(kind, m) == [D0 EXCEPT !.kind = kind, !.m = m]
 ChunkCases(kind, m) ==
      {[K(kind, m) EXCEPT !.ans = a, !.cr = r, !.cl = c, !.bi = b] : a \in AnsFew, r \in 1..Len(CRanges), c \in {-1, 0, 1, 3}, b \in {1, 5, 6}}
@@ -262,6 +262,9 @@ HandleCases ==
   {K("Ping", m) : m \in {"GET", "HEAD"}}
   \cup {[K("BlobHead", "HEAD") EXCEPT !.ans = a, !.size = z] : a \in Answers, z \in {0, 3}}
   \cup {[K("BlobGet", "GET") EXCEPT !.ans = a, !.rng = r, !.size = z] : a \in Answers, r \in 1..Len(Ranges), z \in {0, 3}}
+  \* reader faults (size 3): fails after 0, 1, 2 bytes; rf = 4, 5: would fail at or after the end = never; Close failing
+  \cup {[K("BlobGet", "GET") EXCEPT !.rng = r, !.rf = f, !.rcerr = e] : r \in 1..Len(BasicRanges), f \in 1..5, e \in {"ok", "DENIED"}}
+  \cup {[K("ManifestGet", "GET") EXCEPT !.ref = x, !.oi = o, !.rf = f, !.rcerr = e] : x \in {"tag", "dmatch"}, o \in 1..2, f \in 0..5, e \in {"ok", "uncoded"}}
   \cup {[K("BlobDelete", "DELETE") EXCEPT !.ans = a] : a \in Answers}
   \cup {[K("StartUpload", "POST") EXCEPT !.ans = a, !.sid = s, !.cerr = c] : a \in Answers, s \in 1..Len(Ids), c \in {"ok", "DENIED"}}
   \cup {[K("UploadBlob", "POST") EXCEPT !.ans = a, !.oi = o, !.cl = c, !.bi = b] : a \in Answers, o \in 1..2, c \in {-1, -2}, b \in {1, 5}}
@@ -317,11 +320,12 @@ HcHeaders(c) == [range |-> Ranges[c.rng], crange |-> CRanges[c.cr], ctype |-> CT
                  cl |-> IF c.cl = -2 THEN HcBody(c).n ELSE c.cl]
 HcSc(c) == [ans |-> c.ans, size |-> c.size, mt |-> MT_test, rdig |-> D2, id |-> Ids[c.sid], chunk |-> 7, wsize |-> c.wsize,
             werr |-> c.werr, cerr |-> c.cerr, merr |-> c.merr,
-            items |-> IF c.kind = "Referrers" THEN DigestLists[c.il] ELSE ItemLists[c.il], iterr |-> c.iterr]
+            items |-> IF c.kind = "Referrers" THEN DigestLists[c.il] ELSE ItemLists[c.il], iterr |-> c.iterr, rfail |-> c.rf, rcerr |-> c.rcerr]
 HcHash(c) == c.rng * 7 + c.size * 3 + c.cr * 11 + (c.cl + 2) * 13 + c.bi * 17 + c.il * 19 + c.nv * 23 + c.oi * 29 + c.sid * 31
              + c.wsize * 37 + AnsIdx(c.ans) * 41 + AnsIdx(c.werr) * 43 + AnsIdx(c.cerr) * 47 + AnsIdx(c.merr) * 53
              + AnsIdx(c.iterr) * 59 + c.ct * 61 + Len(c.ref) * 67 + Len(c.kind) * 71 + (IF c.lastv THEN 73 ELSE 0)
 HcExported(c) == \/ c.defect # "none"
+                 \/ c.rf > 0 \/ c.rcerr # "ok"
                  \/ c.kind = "BlobGet" /\ c.ans = "ok" /\ c.rng > Len(BasicRanges)
                  \/ (HcHash(c) + Seed) % HandleK = 0
 
